@@ -281,6 +281,7 @@ type monC06 struct {
 	nanSeen  bool
 	psInput  [21]float64
 	havePS   bool
+	kRng     *Rng
 }
 
 func (m *monC06) Event(ev *hermes.VerifEvent, rc *RunCtx) {
@@ -300,6 +301,12 @@ func (m *monC06) Event(ev *hermes.VerifEvent, rc *RunCtx) {
 	case "post_evatra":
 		m.nfk = ev.W.NFK
 		m.haveNFK = true
+		if m.kRng == nil {
+			m.kRng = NewRng(mix(rc.Sc.Seed, uint64(rc.Sc.Index)+606))
+		}
+		if m.kRng.Bool(0.04) && ev.G == rc.liveG {
+			m.kernelDay(ev, rc)
+		}
 	case "day_end":
 		n := g.N
 		const eps = 1e-12
@@ -380,6 +387,55 @@ func (m *monC06) Event(ev *hermes.VerifEvent, rc *RunCtx) {
 				m.nanSeen = true
 			}
 		}
+	}
+}
+
+// c06HostileSteps: sub-step counts n for which n*(1/n), 1/(1/n) or the running sum of 1/n miss 1 in floating point, next
+// to ordinary ones
+var c06HostileSteps = []int{1, 2, 3, 7, 10, 49, 93, 98, 99, 103, 105, 107, 117, 123, 161, 186, 187}
+
+// kernelDay: the real water routine run for one whole day on a COPY of the live state (as the evapotranspiration routine
+// left it) with a chosen number of sub-steps - a finer stepping than the day needs is always admissible - and, in half
+// of the calls, with some layers filled to their pore volume, as a falling groundwater table leaves them. At the end of
+// that day every layer must be within the bounds of the property.
+func (m *monC06) kernelDay(ev *hermes.VerifEvent, rc *RunCtx) {
+	g := *ev.G
+	w := *ev.W
+	r := m.kRng
+	n := g.N
+	steps := c06HostileSteps[r.Intn(len(c06HostileSteps))]
+	raised := false
+	if r.Bool(0.5) {
+		for z := 0; z < n; z++ {
+			if r.Bool(0.25) && g.PORGES[z] > g.W[z] {
+				g.WG[0][z] = g.PORGES[z]
+				raised = true
+			}
+		}
+	}
+	start := g.WG[0]
+	wdt := 1 / float64(steps)
+	for subd := 1; subd <= steps; subd++ {
+		hermes.Water(wdt, subd, ev.Zeit, &g, &w)
+	}
+	const eps = 1e-12
+	for z := 0; z < n; z++ {
+		wz := g.WG[1][z]
+		if !finite(wz) {
+			rc.Violate("C06", nanSig(ev.G, "kernel_water_content_not_finite"), fmt.Sprintf("water routine with %d sub-steps: layer %d water content is %v", steps, z+1, wz), ev.Zeit, z+1, nil)
+			return
+		}
+		if lo := g.WMIN[z] / 3; start[z] >= lo && wz < lo-eps {
+			rc.Violate("C06", "kernel_below_dryness_limit", fmt.Sprintf("water routine with %d sub-steps: layer %d ends the day at %.17g, below the dryness limit %.17g (started at %.17g)", steps, z+1, wz, lo, start[z]), ev.Zeit, z+1, nil)
+		}
+		if wz > g.W[z]+0.055+eps { // field capacity + the largest tabulated capillary increment
+			rc.Violate("C06", "kernel_above_field_capacity", fmt.Sprintf("water routine with %d sub-steps (layers filled to pore volume at the start: %v): layer %d ends the day at %.17g, field capacity %.17g (+ at most 0.055 capillary rise)", steps, raised, z+1, wz, g.W[z]), ev.Zeit, z+1, map[string]float64{"steps": float64(steps)})
+		}
+	}
+	rc.Cov("kernel_water_days", 1)
+	rc.Cov(fmt.Sprintf("kernel_water_days_%d_substeps", steps), 1)
+	if raised {
+		rc.Cov("kernel_water_days_layers_filled_to_pore_volume", 1)
 	}
 }
 
